@@ -83,6 +83,19 @@ def main_class_groups(detail=None):
     return out
 
 
+def _twin(v):
+    """a value that is equal to v but prints differently (11 / 11.0, (4,) / (4.0,)), or v itself"""
+    if isinstance(v, bool):
+        return v
+    if isinstance(v, int):
+        return float(v)
+    if isinstance(v, float) and v == int(v):
+        return int(v)
+    if isinstance(v, tuple):
+        return tuple(_twin(x) for x in v)
+    return v
+
+
 def groups(mode, lo, hi, detail=None):
     (npos, nkwo), maxpos, maxkw = KC._scope(mode)
     _, I, _ = K._mods()
@@ -114,6 +127,15 @@ def groups(mode, lo, hi, detail=None):
                 for j, km in enumerate(kms):
                     if detail is not None and detail != (idx, ci, j, si):
                         continue
+                    if os.environ.get('KV_SESSION_VARIANT', '0') == '1':
+                        # ... and has keyed the equal-but-differently-printed twins of the arguments before (11.0 for 11):
+                        # a key must not depend on what was keyed earlier in the process
+                        for (a, k) in calls[:12]:
+                            try:
+                                g2 = I._keygen(c, spec, *tuple(_twin(x) for x in a), **{n: _twin(v) for n, v in k})
+                                km(*g2[0], **g2[1])
+                            except Exception:      # noqa
+                                pass
                     h = hashlib.sha1()
                     rows = []
                     for (a, k), g in zip(calls, pre):
